@@ -6,6 +6,8 @@ a. every config path handed out derives from the user's root config dir joined w
 b. the config id read from the repository reaches a path only after the length/hex validation passed
 c. a detected copy gets a freshly generated id and a copy of the old content
 d. the config-id file is written only through atomic_write
+e. CLI side: repo/workspace config layers are loaded only from the path the secure-config loader returned; the root
+   handed to the loader is ConfigEnv.root_config_dir (+ kind), a field written only from the user's config dir
 """
 from jjv.lib import (alts, bodies_with, body_accesses, bool_edges, name_matches, norm, op_place, place_has_field, show,
                      strip, term_calls, term_fields, term_leaves, walk)
@@ -34,6 +36,7 @@ def run(ctx):
     rule_b(ctx)
     rule_c(ctx)
     rule_d(ctx)
+    rule_cli(ctx)
 
 
 def _pruned(t):
@@ -261,3 +264,87 @@ def rule_d(ctx):
                    "atomic_write(repo_dir.join(config_id_name), id)" if ok else
                    "the config-id file is written non-atomically or from an unexpected place", where=c.where())
     ctx.anchor("C43.d", "writes of the config-id file", n, 1)
+
+
+def rule_cli(ctx):
+    F = ctx.F
+    CE = "jj_cli::config::ConfigEnv"
+    # 1. layers with source Repo / Workspace come from the secure loader
+    n = 0
+    for c in F.all_calls_to("re:^jj_lib::config::(StackedConfig|RawConfig)?.*::(load_file|load_dir)$", crates=("jj_cli",)):
+        if c.cleanup:
+            continue
+        sl = F.slicer(c.body.id)
+        src = show(sl.call_arg(c, 1))
+        m = [k for k in ("Repo", "Workspace") if f"ConfigSource::{k}" in src]
+        if not m:
+            continue
+        n += 1
+        ctx.fn_seen(c.body.id)
+        pth = sl.call_arg(c, 2)
+        names = {x[1] for x in term_calls(pth)}
+        want = f"{CE}::maybe_{m[0].lower()}_config_path"
+        other = {x for x in names if x.endswith("::join") or x.endswith("::push")}
+        fields = {f for (_, f) in term_fields(pth)} if callable(term_fields) else set()
+        ok = want in names and not other and not ({"repo_path", "workspace_path"} & fields)
+        ctx.ob("C43.e/layer-loaded-from-secure-path", f"{c.body.root}|{m[0]}", ok,
+               f"load_file(ConfigSource::{m[0]}, {want.split('::')[-1]}()?)" if ok else
+               f"a {m[0].lower()} config layer is loaded from {show(pth)[:120]}, not from the path returned by the secure-config "
+               f"loader (a file inside the repository could be picked up)", where=c.where())
+    ctx.anchor("C43.e", "load_file sites for Repo/Workspace config layers", n, 2)
+    # 2. the maybe_*/.._config_path helpers return LoadedSecureConfig.config_file of load_secure_config
+    for fn in ("maybe_repo_config_path", "repo_config_path", "maybe_workspace_config_path", "workspace_config_path"):
+        fid = f"{CE}::{fn}"
+        b = F.body(fid)
+        if not ctx.anchor("C43.e", fid, [b] if b is not None else [], 1):
+            continue
+        ctx.fn_seen(fid)
+        names = {c.res or c.decl or "" for c in b.calls if not c.cleanup}
+        joins = {x for x in names if name_matches(x, "re:Path(Buf)?::(join|push)$")}
+        ok = f"{CE}::load_secure_config" in names and not joins
+        ctx.ob("C43.e/path-helper-delegates-to-loader", fid, ok, "returns load_secure_config(..)?.config_file" if ok else
+               f"{fn} builds a path itself ({sorted(joins)}) or does not go through load_secure_config")
+    # 3. load_secure_config: root = self.root_config_dir.join(kind)
+    b = F.body(f"{CE}::load_secure_config")
+    if ctx.anchor("C43.e", "ConfigEnv::load_secure_config", [b] if b is not None else [], 1):
+        ctx.fn_seen(b.id)
+        sl = F.slicer(b.id)
+        n2 = 0
+        for c in b.calls:
+            if c.cleanup or not name_matches(c.res or c.decl or "", "re:SecureConfig::(load_config|maybe_load_config)$"):
+                continue
+            n2 += 1
+            t = sl.call_arg(c, 2)
+            flds = {f for (_, f) in term_fields(t)}
+            leaves = {l[2] for l in term_leaves(t) if l[0] == "param"}
+            ok = "root_config_dir" in flds and not ({"repo_path", "workspace_path", "repo_config", "workspace_config"} & flds) and \
+                leaves <= {"self", "kind"}
+            ctx.ob("C43.e/loader-root-is-user-config-dir", (c.res or c.decl).split("::")[-1], ok,
+                   "root = self.root_config_dir.join(kind)" if ok else
+                   f"the secure-config root handed to the loader is {show(t)[:120]}", where=c.where())
+        ctx.anchor("C43.e", "load_config/maybe_load_config calls", n2, 2)
+    # 4. writers of ConfigEnv.root_config_dir: only the constructor's struct literal, from UnresolvedConfigEnv::root_config_dir()
+    from jjv.lib import field_writers
+    ws = [(b.id, ln) for (b, bb, kind, p, ln) in field_writers(F, CE, "root_config_dir", kinds=("write", "mut"))]
+    builders = sorted({r["fn"] for r in F.q("SELECT DISTINCT fn FROM aggregate WHERE adt=?", (CE,))
+                       if " as std::clone::Clone>::clone" not in r["fn"]})
+    okb = bool(builders)
+    for bid in builders:
+        b = F.body(bid)
+        if b is None:
+            continue
+        ctx.fn_seen(bid)
+        names = {c.res or c.decl or "" for c in b.calls if not c.cleanup}
+        if "jj_cli::config::UnresolvedConfigEnv::root_config_dir" not in names:
+            okb = False
+    ctx.ob("C43.e/root-config-dir-writers", CE, not ws and okb,
+           f"set only in the constructor(s) {[x.split('::')[-1] for x in builders]} from UnresolvedConfigEnv::root_config_dir()"
+           if not ws and okb else
+           f"ConfigEnv.root_config_dir is written outside its constructor ({ws[:3]}) or the constructor no longer takes it from "
+           f"the user's config dir ({builders[:3]})")
+    ub = F.body("jj_cli::config::UnresolvedConfigEnv::root_config_dir")
+    if ctx.anchor("C43.e", "UnresolvedConfigEnv::root_config_dir", [ub] if ub is not None else [], 1):
+        fl = {f for (i, k, pl, ln) in body_accesses(ub) for f in [e[2] for e in pl[1:] if isinstance(e, list) and e[0] == "f"]}
+        ok = "user_config_dir" in fl and not ({"home_dir", "jj_config", "system_config_dir"} & fl)
+        ctx.ob("C43.e/root-is-under-user-config-dir", ub.id, ok, "user_config_dir.join(\"jj\")" if ok else
+               f"root_config_dir is derived from {sorted(fl)}")
